@@ -147,7 +147,6 @@ type builtEntry struct {
 	part    partKey
 	rows    []rowRec
 	payload []byte
-	reject  string
 }
 
 // buildEntries does what the broker does between the ingestion handler and the storage node's WriteLog: proto metric ->
